@@ -33,6 +33,10 @@ WRAPPERS = {
     "header-comment": "# header\nSET\n",
     "lambda-with": "{ p }:\nwith p;\nSET\n",
     # equal-looking bindings (same leaf name, value and trivia) under different parents / in attrpath and plain form
+    # a let layer that holds an `inherit` next to its one binding (the layer must survive `rm @v`), and three layers of which
+    # two (not the outermost) read the same
+    "let-inherit": "let\n  inherit (pkgs) lib;\n  v = 1;\nin\nSET\n",
+    "let3-alike": "let\n  u = 1;\n  n = 0;\nin\nlet\n  v = 2;\nin\nlet\n  v = 2;\nin\nSET\n",
     "let-twins": "let\n  x = 0;\n  lib.v = 1;\n  v = 1;\n  w.v = 1;\nin\nSET\n",
 }
 CONTENTS = {
@@ -51,6 +55,9 @@ CONTENTS = {
     "attrpath-deep4": "{\n  s.n.v.m.a = true;\n  s.n.v.m.b = false;\n  s.n.w = 1;\n  k = 1;\n}",
     # a family whose members are not written next to each other
     "attrpath-interleaved": "{\n  s.n.a = 1;\n  s.h.a = 2;\n  s.n.p = 3;\n  k = 1;\n}",
+    # one root defined explicitly and in attrpath form (legal Nix; merged by the evaluator)
+    "set-and-attrpath": "{\n  a = {\n    x = 1;\n  };\n  a.b = 2;\n  k = 1;\n}",
+    "set-and-attrpath-deep": "{\n  s = {\n    k = true;\n  };\n  s.t.u = 4;\n  z = 5;\n}",
     "twins": "{\n  z = 0;\n  a.enable = true;\n  b.enable = true;\n  enable = true;\n  m.x = 1;\n}",
     "twins-inline": "{ a.enable = true; b.enable = true; c.enable = true; }",
 }
@@ -59,7 +66,8 @@ PATHS = ["a.enable", "b.enable", "c.enable", "enable", "@lib.v", "@w.v", "a", "b
          # a scoped name that the attribute set body binds as well (the body must keep its text: C09)
          "@a", "@@a", "@m.x",
          # later members of deep attrpath families, fresh leaves in them, and the paths a mis-merged tree would answer to
-         "m.n.y", "m.y", "m.n.z", "s.n.v.m.b", "s.n.v.m.c", "s.n.v.b", "s.n.w", "@@@u", "s.n.p", "s.h.a"]
+         "m.n.y", "m.y", "m.n.z", "s.n.v.m.b", "s.n.v.m.c", "s.n.v.b", "s.n.w", "@@@u", "s.n.p", "s.h.a",
+         "a.b", "a.x", "s.t.u", "s.k", "s.t", "@lib", "@n", "@@@n"]
 VALUES = ["2", '"s"', "[ 1 2 ]", "{ k = 1; }", "v", "{", "1 2", ""]
 
 
@@ -71,6 +79,10 @@ def documents(tier):
             if w == "let-twins" and c not in ("flat", "twins", "attrpath"):
                 continue
             if c.startswith("twins") and w not in ("bare", "let", "let-twins", "lambda-call", "rec"):
+                continue
+            if c.startswith("set-and-attrpath") and w not in ("bare", "lambda", "let"):
+                continue
+            if w in ("let-inherit", "let3-alike") and c not in ("flat", "attrpath", "comments", "inline"):
                 continue
             if c in ("attrpath-deep4", "attrpath-interleaved") and w not in ("bare", "let", "lambda-call", "rec", "lambda"):
                 continue
@@ -135,9 +147,35 @@ def is_attrpath_root(text, name, layer=None):
     return False
 
 
-def model_set(tree, names, value, *, attrpath_roots=()):
+def attrpath_prefixes(text, layer=None):
+    """Every strict prefix (as a tuple of names) of an attribute path written in attrpath form in the editable set (or in let
+    layer `layer`): the sets at these paths exist only through their members, so they cannot be overwritten or removed as such."""
+    root = G.parse_cst(text)
+    s, lets = RD.unwrap_to_set(root)
+    if layer is not None:
+        s = lets[layer]
+    out = set()
+
+    def walk(container, prefix):
+        for b in RD.bindings_of(container):
+            if b.type != "binding":
+                continue
+            ap = b.child_by_field_name("attrpath")
+            comps = [RD.attr_name(c) for c in ap.children if c.type not in (".", "comment")]
+            for k in range(1, len(comps)):
+                out.add(tuple(prefix + comps[:k]))
+            val = b.child_by_field_name("expression")
+            if val is not None and val.type in ("attrset_expression", "rec_attrset_expression"):
+                walk(val, prefix + comps)
+
+    if s is not None:
+        walk(s, [])
+    return out
+
+
+def model_set(tree, names, value, *, attrpath_roots=(), prefixes=()):
     t = tree
-    if len(names) == 1 and names[0] in attrpath_roots:
+    if (len(names) == 1 and names[0] in attrpath_roots) or tuple(names) in prefixes:
         raise Refuse("attrpath-root overwrite")
     for nm in names[:-1]:
         if nm in t:
@@ -150,8 +188,8 @@ def model_set(tree, names, value, *, attrpath_roots=()):
     t[names[-1]] = value
 
 
-def model_rm(tree, names, *, attrpath_roots=()):
-    if len(names) == 1 and names[0] in attrpath_roots:
+def model_rm(tree, names, *, attrpath_roots=(), prefixes=()):
+    if (len(names) == 1 and names[0] in attrpath_roots) or tuple(names) in prefixes:
         raise Refuse("missing key (attrpath root)")
     chain = [tree]
     t = tree
@@ -192,10 +230,11 @@ def apply_model(text, op, path, value):
     layers = copy.deepcopy(layers)
     if depth == 0:
         roots = {k for k in tree if is_attrpath_root(text, k)}
+        pre = attrpath_prefixes(text)
         if op == "set":
-            model_set(tree, names, val, attrpath_roots=roots)
+            model_set(tree, names, val, attrpath_roots=roots, prefixes=pre)
         else:
-            model_rm(tree, names, attrpath_roots=roots)
+            model_rm(tree, names, attrpath_roots=roots, prefixes=pre)
         return tree, layers
     # scope selector: depth-th layer counted from the innermost
     if depth > len(layers):
@@ -207,10 +246,17 @@ def apply_model(text, op, path, value):
     layer = layers[li]
     _, _, old_layers = RD.read_document(text)
     roots = {k for k in layer if li < len(old_layers) and is_attrpath_root(text, k, li)}
+    pre = attrpath_prefixes(text, li) if li < len(old_layers) else set()
+    if op == "rm":
+        t = layer
+        for nm in names:
+            if isinstance(t, dict) and isinstance(t.get(nm), tuple):
+                raise Unmodelled("removal of an inherited name")
+            t = t.get(nm) if isinstance(t, dict) else None
     if op == "set":
-        model_set(layer, names, val, attrpath_roots=roots)
+        model_set(layer, names, val, attrpath_roots=roots, prefixes=pre)
     else:
-        model_rm(layer, names, attrpath_roots=roots)
+        model_rm(layer, names, attrpath_roots=roots, prefixes=pre)
         if not layer:
             del layers[len(layers) - depth]
     return tree, layers
@@ -451,11 +497,13 @@ def coarse_signature(sym, op, path, text, wrapper, content):
                         "a layer (pinned by test_set_scope_path_updates_existing_attrset_body)")
         except Exception:
             pass
-    if sym == "output-defines-an-attribute-twice" and depth == 0 and len(names) == 1:
+    if sym == "output-defines-an-attribute-twice" and len(names) == 1:
         try:
-            _, tree, _ = RD.read_document(text)
-            if isinstance(tree.get(names[0]), tuple):
+            _, tree, layers = RD.read_document(text)
+            if depth == 0 and isinstance(tree.get(names[0]), tuple):
                 return f"{sym}|set of a name the set already inherits"
+            if 0 < depth <= len(layers) and isinstance(layers[len(layers) - depth].get(names[0]), tuple):
+                return f"{sym}|set of a name the let layer already inherits"
         except Exception:
             pass
     return None
